@@ -40,6 +40,7 @@ SigInt == /\ Is("Cancel") /\ sigint' = TRUE
 Returned == /\ Is("Returned") /\ returnedAt = -1
             /\ (~sigint => (doneAt # -1 /\ lastProbe # -1 /\ Ev.t >= lastProbe + delay))        \* NoEarlyExit
             /\ (cancelAt # -1 => Ev.t <= cancelAt + Bound)                                       \* ExitsAfterDelay
+            /\ ((~sigint /\ doneAt # -1) => Ev.t <= doneAt + delay + Bound)                       \* ... counted from the end of the delay, whatever else happens meanwhile
             /\ ((~sigint /\ delay >= 600000) => \A x \in injected : x[2] <= SafeFrac1000 => x[1] \in printed)
             /\ returnedAt' = Ev.t
             /\ UNCHANGED <<delay, lastProbe, doneAt, cancelAt, sigint, injected, printed>>
